@@ -5,6 +5,7 @@ CONSTANTS
   MaxDocsA = 1
   MaxEvA = 1
   Rich = TRUE
+  Side = TRUE
 INIT MCInit
 NEXT Next
 INVARIANTS TypeOK StdoutIsRenderedOutputs StderrIsDiagnostics EndState StatusBookkeeping HaltStops AllInputsProcessed StatusTable
